@@ -544,6 +544,13 @@ def gen_c12(tier, seed):
                 f = {"name": "odd_keys_%d" % n, "container": cont, "fkind": fk, "params": ps,
                      "traces": [{"args": {}, "vals": {"d": val}, "ret": None, "yld": None}]}
                 cases.append({"funcs": [f], "strategy": "REPLICATE", "k": k, "family": "c12_dict_keys_that_are_not_identifiers"})
+    # parameter names that give odd class-name hints for generated TypedDict classes (`_1` -> `1TypedDict...`, `_`, `a_1`)
+    for n, pname in enumerate(["_1", "_", "a_1", "__x", "x9"]):
+        for k in (3,):
+            ps = [{"name": pname, "kind": "poskw", "default": None}]
+            f = {"name": "odd_param_%d" % n, "container": [], "fkind": "module", "params": ps,
+                 "traces": [{"args": {}, "vals": {pname: vd("a", "b")}, "ret": None, "yld": None}]}
+            cases.append({"funcs": [f], "strategy": "REPLICATE", "k": k, "family": "c12_parameter_names_giving_odd_class_name_hints"})
     # long names force wrapping at 120 columns; classes one and two levels deep
     for n in range(40 if tier == "quick" else 300):
         ps = rng.choice(sh)
